@@ -14,10 +14,14 @@ Reading of the English.
   features and tokens of its kind, every token converts).  The theorems hold for EVERY such `f` — any number of events
   ≥ 1, any multiplicities incl. empty events at any position, any tokens, 12 / 20 / 21 / 22 columns, any ASCII header
   over the 22 names, tab- or blank-separated JETSCAPE headers (`toksTab`), with or without final newline.
-  NOT proved in Lean: that the text `oscarText F` / `jetText F` rendered by the grammar has these observations
-  (classification lemma — string reasoning about `splitOn` / substring tests); the driver evaluates `obsOscar` /
-  `obsJet` on the real bytes of every generated file of every run (hundreds per run, incl. the files written by the
-  eight `GenerateFlow.generate_dummy_*` functions), together with byte equality of the Lean and Python renderings.
+  That the text `oscarText F` / `jetText F` rendered by the grammar (`grammarOscar F` / `grammarJet F`) has these
+  observations is the classification lemma `C01_classification_holds` (string layer: `Core/Str.lean` re-implements the
+  substring tests, `split(' ')`, line splitting, `int()` / `float()` as structurally recursive functions on character
+  lists; `Lemmas/Str.lean`, `Lemmas/Classify*.lean` prove it by induction over events), so `C01_full_holds` is about the
+  TEXT with no observation hypothesis left.  The driver still evaluates `grammarOscar` / `obsOscar` / `obsJet` on the real
+  bytes of every generated file of every run (hundreds per run, incl. the files written by the eight
+  `GenerateFlow.generate_dummy_*` functions), together with byte equality of the Lean and Python renderings — this ties
+  the re-implemented primitives to Python's.
 * "exactly the file's events in file order, each holding exactly its particle lines in file order": the result is
   `abstractOscar F` / `abstractJet F`: event `i` is the list of `PLine`s (file line number, tokens) of `F.events[i]`, in order
   (`abstract_tokens_*`, `abstract_lines_*`); number of events, `(label, size)` rows, detected format, ASCII attribute
@@ -34,6 +38,8 @@ Reading of the English.
 -/
 import SparkxVerif.Lemmas.Reader
 import SparkxVerif.Lemmas.Columns
+import SparkxVerif.Lemmas.ClassifyOscar
+import SparkxVerif.Lemmas.ClassifyJet
 import SparkxVerif.Props.C08
 
 set_option linter.unusedSimpArgs false
@@ -200,13 +206,13 @@ theorem particle_list_jetscape (F : JetSpec) :
   · simp [abstractJet, absJEvents_length]
   · simp [abstractJet, absJEvents_lengths, Function.comp_def]
 
-/-! ### what is proved and what is sampled about the TEXT
+/-! ### the statement about the TEXT
 
 `C01_full` is the statement over the rendered text; it follows from the theorems above and `C01_classification`
-("the text rendered for a specification of the grammar is observed as that specification").  The classification is string
-reasoning about `String.splitOn` / substring tests over the token alphabet; it is NOT proved here.  The driver evaluates
-its instances (`grammarOscar F`, `obsOscar (fileOfText (oscarText F)) F`, and the JETSCAPE twins) on every generated file
-of every run, on the real bytes. -/
+("the text rendered for a specification of the grammar is observed as that specification"), which is proved below
+(`C01_classification_holds`; string reasoning over the token alphabet in `Lemmas/Str.lean`, `Lemmas/Classify*.lean`).
+The driver also evaluates its instances (`grammarOscar F`, `obsOscar (fileOfText (oscarText F)) F`, and the JETSCAPE
+twins) on every generated file of every run, on the real bytes. -/
 
 def C01_classification : Prop :=
   (∀ F : OscarSpec, grammarOscar F = true → obsOscar (Proto.fileOfText (oscarText F)) F = true) ∧
@@ -223,6 +229,17 @@ def C01_full : Prop :=
 theorem C01_partial (hc : C01_classification) : C01_full :=
   ⟨fun F hg hwf => ⟨read_render_oscar _ F (hc.1 F hg) hwf, impact_render_oscar _ F (hc.1 F hg) hwf⟩,
    fun F hg hwf => ⟨read_render_jetscape _ F (hc.2 F hg) hwf, sigma_render_jetscape _ F (hc.2 F hg)⟩⟩
+
+/-- the classification lemma (string layer): the text rendered for any specification of the grammar — any number of
+events, any multiplicities, any numeric tokens over `[0-9+-.eE]`, any column names, tab- or blank-separated JETSCAPE
+headers, with or without final newline — is split into lines and observed (`Proto.fileOfText`, `Rd.analyse`: substring
+tests, `split(' ')`, `int()`, `float()`) as exactly the lines of that specification.  Proof: `Lemmas/Str.lean` (algebra of
+the structurally recursive string primitives of `Core/Str.lean`), `Lemmas/Classify*.lean` (line kinds, induction over events). -/
+theorem C01_classification_holds : C01_classification :=
+  ⟨oscar_classification, jet_classification⟩
+
+/-- the statement over the rendered TEXT, unconditionally -/
+theorem C01_full_holds : C01_full := C01_partial C01_classification_holds
 
 /-! ## (2) every column value is available under its documented attribute -/
 
@@ -374,7 +391,7 @@ def exOscar : OscarSpec :=
                ⟨2, [["0.25", "2212", "12."]], "# event 2 end 0 impact  -1.000 scattering_projectile_target no", "-1.000"⟩],
     trailingNL := true }
 
-example : wfOscar exOscar := by
+theorem exOscar_wf : wfOscar exOscar := by
   refine ⟨by simp [exOscar], ?_, by simp only [exOscar]; decide⟩
   intro i h
   have : i < 3 := by simpa [exOscar] using h
@@ -391,11 +408,26 @@ def exJet : JetSpec :=
                 "# Event 2 weight 1 EPangle 0 N_partons 2"⟩],
     trailer := "#\tsigmaGen\t0.1\tsigmaErr\t0.01", sigma := ("0.1", "0.01"), trailingNL := false }
 
-example : wfJet exJet := ⟨_, _, rfl, rfl, by simp⟩
+theorem exJet_wf : wfJet exJet := ⟨_, _, rfl, rfl, by simp⟩
 
-/-- the observation hypothesis on an explicit file for `exJet`, granted the evaluation of Python's conversions on the
-literal tokens (the kernel cannot run `String` functions; the driver evaluates `obsJet` on the bytes of `jetText exJet`
-and of every generated file on every run) -/
+/-- the two specifications are in the text grammar (evaluated by the kernel on the character lists) … -/
+theorem exOscar_grammar : grammarOscar exOscar = true := by decide
+
+theorem exJet_grammar : grammarJet exJet = true := by decide
+
+/-- … so their rendered texts are split, classified and read as exactly their content — no hypothesis about any string
+function is left -/
+example : readOscar (Proto.fileOfText (oscarText exOscar)) .all none = .ok (abstractOscar exOscar) ∧
+    impactParams (Proto.fileOfText (oscarText exOscar)) (abstractOscar exOscar) = .ok ["1.500", "0.000", "-1.000"] :=
+  C01_full_holds.1 exOscar exOscar_grammar exOscar_wf
+
+example : readJetscape (Proto.fileOfText (jetText exJet)) .all true none = .ok (abstractJet exJet) ∧
+    sigmaGen (Proto.fileOfText (jetText exJet)) = .ok ("0.1", "0.01") :=
+  C01_full_holds.2 exJet exJet_grammar exJet_wf
+
+/-- the observation hypothesis on an explicit, hand-written file for `exJet`, granted the evaluation of Python's conversions
+on the literal tokens (kept from before the string layer was proved: `obsJet` is satisfiable by files given as
+observations, whatever the string primitives are) -/
 example (hi : ∀ t ∈ ["0", "1", "2", "21", "2203"], isPyInt t = true)
     (hv : pyInt? "1" = some 1 ∧ pyInt? "2" = some 2 ∧ pyInt? "0" = some 0)
     (hf : ∀ t ∈ ["5.0", "1.0", "2.0", "3.0", "2.5", "0.0"], isPyFloat t = true)
